@@ -49,7 +49,7 @@ import (
 
 const httpPart = "http"
 
-var httpSubs = []string{"http-requests", "sdpfrag", "precondition-headers", "rtcp-report-timing", "cache-resize", "sequence-map"}
+var httpSubs = []string{"http-requests", "sdpfrag", "precondition-headers", "rtcp-report-timing", "cache-resize", "sequence-map", "writer-pool"}
 
 func runHTTP(res *core.Result) {
 	if isCoordinator() {
@@ -704,6 +704,9 @@ func runHTTPShard(res *core.Result) {
 	}
 	if core.Want("sequence-map") && o.Shard == 3%o.Shards {
 		runMapSequences(res)
+	}
+	if core.Want("writer-pool") && o.Shard == 4%o.Shards {
+		runWriterPool(res)
 	}
 }
 
